@@ -21,7 +21,8 @@ import (
 type ConfSpec struct {
 	Method       string `json:"method,omitempty"` // default bearer
 	NoData       bool   `json:"no_data,omitempty"`
-	NotOnOrAfter *int64 `json:"noa_ms"` // nil: attribute absent
+	NotOnOrAfter *int64 `json:"noa_ms"`             // nil: attribute absent
+	NOAText      string `json:"noa_text,omitempty"` // non-empty: SubjectConfirmationData/@NotOnOrAfter is written as exactly this text
 	Recipient    string `json:"recipient"`
 	InResponseTo string `json:"irt"`
 }
@@ -44,7 +45,8 @@ type AsrtSpec struct {
 	Confs        []ConfSpec `json:"confs"`
 	NotBefore    *int64     `json:"nb_ms"`
 	NotOnOrAfter *int64     `json:"noa_ms"`
-	Audiences    []string   `json:"audiences"` // one AudienceRestriction each; nil: none
+	NOAText      string     `json:"noa_text,omitempty"` // non-empty: Conditions/@NotOnOrAfter is written as exactly this text (e.g. the year-1 instant)
+	Audiences    []string   `json:"audiences"`          // one AudienceRestriction each; nil: none
 	Attrs        []AttrSpec `json:"attrs,omitempty"`
 	SessionIndex string     `json:"session_index,omitempty"`
 	SessionNOA   *int64     `json:"session_noa_ms,omitempty"` // AuthnStatement SessionNotOnOrAfter (nil: absent)
@@ -240,6 +242,21 @@ func (a *AsrtSpec) toAssertion(t0 time.Time) *saml.Assertion {
 func buildAssertionEl(a *AsrtSpec, t0 time.Time, form int, method string) *etree.Element {
 	el := a.toAssertion(t0).Element()
 	rewriteTimes(el, form)
+	// verbatim instants (outside the range a Duration from t0 can express), written before signing
+	if a.NOAText != "" {
+		if c := el.FindElement("./Conditions"); c != nil {
+			c.CreateAttr("NotOnOrAfter", a.NOAText)
+		}
+	}
+	ci := 0
+	for _, sc := range el.FindElements("./Subject/SubjectConfirmation") {
+		if ci < len(a.Confs) && a.Confs[ci].NOAText != "" {
+			if d := sc.FindElement("./SubjectConfirmationData"); d != nil {
+				d.CreateAttr("NotOnOrAfter", a.Confs[ci].NOAText)
+			}
+		}
+		ci++
+	}
 	if a.Sign {
 		el = placeSignature(signEnveloped(rsaKeys[a.SignKey], method, el))
 	}
